@@ -454,6 +454,75 @@ func runC05(b *mon.B) {
 			}
 		}
 	}
+	// ---- oversize headers, client as the receiver: Client.Send must come back with an error as soon
+	// as the 12 header bytes are in, without another read and without allocating the announced size
+	// (announcements stop at 64 MiB here: a client that does allocate must not take the machine down)
+	for k, announced := range []uint32{65537, 65538, 1 << 20, 1 << 26} {
+		for _, split := range []string{"whole", "1-byte", "with-trailing-bytes"} {
+			caseNo++
+			if !b.Want(caseNo) || (k+b.Index)%2 != 0 && !b.Thorough() {
+				continue
+			}
+			b.Eval(1)
+			b.Class("client/oversize/%d/%s", announced, split)
+			typ := 1 + r.Intn(3)
+			sid := r.U32()
+			hb := rfc8907.Header{Major: 0xc, Minor: 0, Type: typ, Seq: 2, Session: sid, Length: announced}.Encode()
+			trailing := r.Bytes(40)
+			var grown uint64 = 1 << 62
+			readsAfter := 0
+			var sendErr error
+			var got *tq.Packet
+			for attempt := 0; attempt < 3 && grown > 64<<10; attempt++ {
+				world := simnet.New()
+				conn := world.NewConn(simnet.RemoteFor(caseNo))
+				cl := tq.NewClientFromConn(conn, secret)
+				switch split {
+				case "whole":
+					conn.Feed(hb)
+				case "1-byte":
+					conn.Feed(cutEvery(1)(r, hb, nil)...)
+				case "with-trailing-bytes":
+					conn.Feed(append(append([]byte{}, hb...), trailing...))
+				}
+				conn.Stall()
+				req := tq.NewPacket(tq.SetPacketHeader(tq.NewHeader(tq.SetHeaderVersion(tq.Version{MajorVersion: 0xc}), tq.SetHeaderType(tq.HeaderType(typ)),
+					tq.SetHeaderSeqNo(1), tq.SetHeaderSessionID(tq.SessionID(sid)))), tq.SetPacketBody(c05Body(r, typ, 20, false)))
+				var ms runtime.MemStats
+				runtime.ReadMemStats(&ms)
+				alloc0 := ms.TotalAlloc
+				t0 := world.Now()
+				got, sendErr = cl.Send(req)
+				runtime.ReadMemStats(&ms)
+				if g := ms.TotalAlloc - alloc0; g < grown {
+					grown = g
+				}
+				delivered := 0
+				readsAfter = 0
+				for _, e := range world.EventsSince(t0) {
+					switch e.Kind {
+					case simnet.KReadReturn:
+						delivered += e.N
+					case simnet.KReadEnter:
+						if delivered >= 12 {
+							readsAfter++
+						}
+					}
+				}
+			}
+			b.Max("max:client_oversize_scenario_heap_growth_bytes", int(grown))
+			w := map[string]interface{}{"announced": announced, "split": split, "reads_after_header": readsAfter, "heap_growth": grown, "send_error": fmt.Sprint(sendErr)}
+			if sendErr == nil && got != nil {
+				b.Violate(caseNo, "C05/client/oversize-delivered", fmt.Sprintf("header announcing %d body bytes: Client.Send returned a packet", announced), w)
+			}
+			if readsAfter > 0 {
+				b.Violate(caseNo, "C05/client/oversize-header-waited-for-body", fmt.Sprintf("header announcing %d body bytes: Client.Send issued %d more reads instead of refusing at once", announced, readsAfter), w)
+			}
+			if grown > 64<<10 {
+				b.Violate(caseNo, "C05/client/oversize-header-allocated", fmt.Sprintf("header announcing %d body bytes: %d bytes allocated by Client.Send", announced, grown), w)
+			}
+		}
+	}
 	srv.Net.SetKeepLog(false)
 
 	// ---- client side
